@@ -145,27 +145,56 @@ def emptyjoin(run, p, sh):
     run.floor('C08-EMPTYJOIN', n, 1)
 
 
+def _from_query(p, sh, f, names, depth=0):
+    """do these names of f take their value from a query result - directly (self.execute...) or through a method of the handler
+    that returns one?"""
+    clo = dep_closure(f.node, names)
+    if any(c.startswith('self.execute') for c in clo):
+        return True
+    if depth >= 2:
+        return False
+    for c in clo:
+        if c.startswith('self.') and c[5:] in sh.methods and not c.startswith('self.execute'):
+            g = sh.methods[c[5:]]
+            rets = [r.value for r in p.own_nodes(g) if isinstance(r, ast.Return) and r.value is not None]
+            for r in rets:
+                direct = any(isinstance(x, ast.Call) and norm(x.func).startswith('self.execute') for x in ast.walk(r))
+                if direct or _from_query(p, sh, g, names_in(r), depth + 1):
+                    return True
+    return False
+
+
 def total(run, p, sh):
-    run.rule('C08-TOTAL', 'a lookup in a closed dict literal with a key derived from a query result is a .get or is dominated by a membership test')
+    run.rule('C08-TOTAL', 'a lookup in a closed dict literal (a local, a module-level or a class-level table) with a key derived from a query '
+                          'result is a .get or is dominated by a membership test')
     n = 0
+    class_tables = {t.id for b in sh.node.body if isinstance(b, ast.Assign) and isinstance(b.value, ast.Dict) for t in b.targets if isinstance(t, ast.Name)}
     for name, f in sorted(sh.methods.items()):
         dicts = {t.id for s in p.own_nodes(f) if isinstance(s, ast.Assign) and isinstance(s.value, ast.Dict)
                  for t in s.targets if isinstance(t, ast.Name)}
         # and the module's own closed tables
         dicts |= {k for k, v in f.mod.consts.items() if isinstance(v, ast.Dict)}
-        if not dicts:
+        if not dicts and not class_tables:
             continue
         gm = GuardMap(f.node)
-        for x in p.own_nodes(f):
-            if isinstance(x, ast.Subscript) and isinstance(x.value, ast.Name) and x.value.id in dicts and isinstance(x.ctx, ast.Load):
-                n += 1
-                clo = dep_closure(f.node, names_in(x.slice))
-                from_query = any(c.startswith('self.execute') for c in clo)
-                ch = gm.chain(x) or ()
-                tested = any(g.kind == 'if' and g.pol and x.value.id in names_in(g.test) and ' in ' in ast.unparse(g.test) for g in ch)
-                run.ob('C08-TOTAL', '%s::closed-table[%s]' % (f.rel, norm(x.slice)[:40]), tested or not from_query,
-                       '%s: key comes from a query result and the table is %s' % (norm(x)[:40], 'tested first' if tested else 'not total (KeyError for any other type name)'),
-                       fn=f, node=x)
+        k = 0
+        for x in sorted((x for x in p.own_nodes(f) if isinstance(x, ast.Subscript)), key=lambda x: (x.lineno, x.col_offset)):
+            tab = None
+            if isinstance(x.value, ast.Name) and x.value.id in dicts:
+                tab = x.value.id
+            elif isinstance(x.value, ast.Attribute) and isinstance(x.value.value, ast.Name) and x.value.value.id in ('self', 'cls', sh.name) \
+                    and x.value.attr in class_tables:
+                tab = x.value.attr
+            if tab is None or not isinstance(x.ctx, ast.Load):
+                continue
+            n += 1
+            from_query = _from_query(p, sh, f, names_in(x.slice))
+            ch = gm.chain(x) or ()
+            tested = any(g.kind == 'if' and g.pol and tab in ast.unparse(g.test) and ' in ' in ast.unparse(g.test) for g in ch)
+            run.ob('C08-TOTAL', '%s::%s::closed-table[%d]' % (f.rel, f.short, k), tested or not from_query,
+                   '%s: key comes from a query result and the table is %s' % (norm(x)[:40], 'tested first' if tested else 'not total (KeyError for any other type name)'),
+                   fn=f, node=x)
+            k += 1
     run.floor('C08-TOTAL', n, 1)
 
 
